@@ -1746,8 +1746,8 @@ def render_split(prog):
 
 
 # --------------------------------------------------------------------------------------------- ill-typed mutants (C06, C13, C15)
-MUTANT_KINDS = ["M1", "M2a", "M2b", "M3", "M4", "M5", "M6", "M7", "M8", "M9", "M10", "M11", "M12"]
-TWIN_KINDS = ["W9", "W10", "W11", "W12"]     # the well-typed counterparts of M9..M12: same declarations, fault repaired; must be accepted
+MUTANT_KINDS = ["M1", "M2a", "M2b", "M3", "M4", "M5", "M6", "M7", "M8", "M9", "M10", "M11", "M12", "M13", "M13b", "M14", "M14b"]
+TWIN_KINDS = ["W9", "W10", "W11", "W12", "W13", "W14"]     # the well-typed counterparts of M9..M12: same declarations, fault repaired; must be accepted
 TOK_DECL = "TokQ: with { mkTokQ: () -> % } == add { Rep == MachineInteger; import from Rep; mkTokQ(): % == per 0 };"
 HLP_DECL = "hlpQ(x: MachineInteger): MachineInteger == x + (1@MachineInteger);"
 
@@ -1804,6 +1804,24 @@ def mutant_parts(kind, n=0):
         return bx, ["import from BxQ(MachineInteger);", "qb%d: MachineInteger := wdQ();" % n], "wdQ"
     if kind == "W12":
         return bx, ["import from BxQ(MachineInteger);", "qb%d: MachineInteger := wdQ()$BxQ(MachineInteger);" % n, 'prMI("", qb%d);' % n], "wdQ"
+    # assignment to a file-level constant from inside functions that declare it free (one level / through two nested levels)
+    if kind in ("M13", "M13b", "W13"):
+        decl = "cfQ: MachineInteger %s (3@MachineInteger);" % (":=" if kind == "W13" else "==")
+        if kind == "M13b":
+            fn = ["bmQ(): () == { free cfQ; cfQ := cfQ + (4@MachineInteger); }"]
+        else:
+            fn = ["bmQ(): () == { free cfQ; stQ(n: MachineInteger): () == { free cfQ; cfQ := cfQ + n; }; stQ((4@MachineInteger)); }"]
+        return [decl] + fn, (['bmQ();', 'prMI("", cfQ);'] if kind == "W13" else None), "cfQ"
+    # a category with two exports of one name, a default for one of them, and a domain that omits the other
+    if kind in ("M14", "M14b", "W14"):
+        sigs = ["grQ: % -> %;", "grQ: (%, MachineInteger) -> %;"]
+        if kind == "M14b":
+            sigs.reverse()
+        cat = ("CtS: Category == with { %s %s mkS: MachineInteger -> %%; vlS: %% -> MachineInteger; default { grQ(x: %%): %% == grQ(x, (1@MachineInteger)); } };"
+               % (sigs[0], sigs[1]))
+        extra = " grQ(x: %, n: MachineInteger): % == per(rep x + n);" if kind == "W14" else ""
+        dom = "DmS: CtS == add { Rep == MachineInteger; import from Rep; mkS(n: MachineInteger): % == per n; vlS(x: %): MachineInteger == rep x;" + extra + " };"
+        return [cat, dom], (["import from DmS;", 'prMI("", vlS(grQ(mkS((3@MachineInteger)))));'] if kind == "W14" else None), "add"
     raise ValueError(kind)
 
 
